@@ -5,6 +5,7 @@ import SluProofs.Lemmas.CxRat
 import SluProofs.Lemmas.Trsv
 import SluProofs.Lemmas.TrsvLayout
 import SluProofs.Lemmas.Cblas
+import SluProofs.Lemmas.Cblas2
 /-
 C14 — Sparse triangular solve / multiply kernels compute the documented operation.
 
@@ -748,5 +749,81 @@ example : dotcC (2 : Int) (#[⟨1, 2⟩, ⟨0, -1⟩] : Array (Cx Rat)) 1 (#[⟨
   decide +kernel
 example : asumZ (2 : Int) (#[⟨1, -2⟩, ⟨-3, 4⟩] : Array (Cx Rat)) 1 = 10 ∧
     asumC (2 : Int) (#[⟨1, -2⟩, ⟨-3, 4⟩] : Array (Cx Rat)) 1 = 10 := by decide +kernel
+
+end Slu.Cblas
+
+/-! ## The bundled reference BLAS — level 2: `[sdcz]gemv_`
+
+`Slu.Cblas.gemv` (Slu/Model/Cblas2.lean) is `spGemv` on the dense column list of the column-major
+array — the same loop nest as CBLAS/dgemv.c, compared bit for bit with `[sdcz]gemv_` by family
+`cblas` — so `sp_gemv_spec` applies: `opA tr a lda i j` is `a[i + j*lda]` (N), `a[j + i*lda]` (T) or
+its conjugate (C). -/
+namespace Slu.Cblas
+open Finset Slu.Kernels
+section gemv
+variable {K : Type} [Field K] [Conj K] [Inhabited K]
+variable [BEq K] [LawfulBEq K]
+
+/-- **gemv.** `[sdcz]gemv_` on an `m x n` column-major array with any `lda`, any nonzero `incy`, any
+`incx`, every `alpha`, `beta` (quick returns and the `x_j = 0` column skip included): the strided
+entries of the result are `alpha * Σ_j op(A)(i,j) x_j + beta * y_i`, every other position of `y` is
+unchanged, the size is unchanged. -/
+theorem gemv_spec (tr : Tr) (m n lda : Nat) (alpha beta : K) (a x y : Array K) (incx incy : Int)
+    (hm : m ≠ 0) (hn : n ≠ 0) (hincy : incy ≠ 0)
+    (hy : ∀ i, i < (if tr == Tr.N then m else n) → vpos (if tr == Tr.N then m else n) incy i < y.size) :
+    (gemv tr m n alpha a lda x incx beta y incy).size = y.size ∧
+    (∀ i, i < (if tr == Tr.N then m else n) →
+      (gemv tr m n alpha a lda x incx beta y incy)[vpos (if tr == Tr.N then m else n) incy i]! =
+        alpha * (∑ j ∈ range (if tr == Tr.N then n else m), opA tr a lda i j * x[vpos (if tr == Tr.N then n else m) incx j]!) +
+          beta * y[vpos (if tr == Tr.N then m else n) incy i]!) ∧
+    (∀ p, (∀ i, i < (if tr == Tr.N then m else n) → vpos (if tr == Tr.N then m else n) incy i ≠ p) →
+      (gemv tr m n alpha a lda x incx beta y incy)[p]! = y[p]!) := by
+  have hrows : ∀ j, j < (denseCSC m n lda a).n → ∀ e ∈ (denseCSC m n lda a).col j, e.1 < (denseCSC m n lda a).m := by
+    intro j hj e he
+    rw [dense_col m n lda a j hj] at he
+    simp only [List.mem_map, List.mem_range] at he
+    obtain ⟨i, hi, rfl⟩ := he
+    exact hi
+  obtain ⟨h1, h2, h3⟩ := sp_gemv_spec tr alpha (denseCSC m n lda a) x incx beta y incy hm hn hincy hrows hy
+  have hY : lenY tr (denseCSC m n lda a) = (if tr == Tr.N then m else n) := rfl
+  have hX : lenX tr (denseCSC m n lda a) = (if tr == Tr.N then n else m) := rfl
+  rw [hY] at h3
+  refine ⟨h1, ?_, h3⟩
+  intro i hi
+  have := h2 i hi
+  rw [hY, hX] at this
+  unfold gemv
+  rw [this]
+  congr 2
+  apply Finset.sum_congr rfl
+  intro j hj
+  rw [dense_opEntry tr m n lda a i j hi (by rw [hX]; simpa using hj)]
+
+/-- `beta = 0`: `y` is not read — the strided result does not depend on the old `y` -/
+theorem gemv_beta_zero (tr : Tr) (m n lda : Nat) (alpha : K) (a x y y' : Array K) (incx incy : Int)
+    (hm : m ≠ 0) (hn : n ≠ 0) (hincy : incy ≠ 0)
+    (hy : ∀ i, i < (if tr == Tr.N then m else n) → vpos (if tr == Tr.N then m else n) incy i < y.size)
+    (hy' : ∀ i, i < (if tr == Tr.N then m else n) → vpos (if tr == Tr.N then m else n) incy i < y'.size)
+    (i : Nat) (hi : i < (if tr == Tr.N then m else n)) :
+    (gemv tr m n alpha a lda x incx 0 y incy)[vpos (if tr == Tr.N then m else n) incy i]! =
+      (gemv tr m n alpha a lda x incx 0 y' incy)[vpos (if tr == Tr.N then m else n) incy i]! := by
+  rw [(gemv_spec tr m n lda alpha 0 a x y incx incy hm hn hincy hy).2.1 i hi,
+    (gemv_spec tr m n lda alpha 0 a x y' incx incy hm hn hincy hy').2.1 i hi]
+  ring
+
+/-- `m = 0` or `n = 0`: quick return -/
+theorem gemv_empty (tr : Tr) (m n lda : Nat) (alpha beta : K) (a x y : Array K) (incx incy : Int)
+    (h : m = 0 ∨ n = 0) : gemv tr m n alpha a lda x incx beta y incy = y :=
+  sp_gemv_empty tr alpha (denseCSC m n lda a) x incx beta y incy h
+
+
+end gemv
+
+/-- a 3 x 2 matrix with `lda = 4`, `incx = -1`, `incy = 2`: `y := 2*A*x + 3*y` -/
+example : gemv Tr.N 3 2 (2 : Rat) #[1, 2, 3, 99, 4, 5, 6, 99] 4 #[10, 1] (-1) 3 #[1, 0, 1, 0, 1] 2 =
+    #[85, 0, 107, 0, 129] := by decide +kernel
+example : gemv Tr.T 3 2 (1 : Rat) #[1, 2, 3, 99, 4, 5, 6, 99] 4 #[1, 1, 1] 1 0 #[7, 7] (-1) = #[15, 6] := by decide +kernel
+example := gemv_spec Tr.N 3 2 4 (2 : Rat) 3 #[1, 2, 3, 99, 4, 5, 6, 99] #[10, 1] #[1, 0, 1, 0, 1] (-1) 2
+  (by decide) (by decide) (by decide) (by decide)
 
 end Slu.Cblas
